@@ -331,7 +331,7 @@ def trunc_sweep(ctx, files, workdir, viol, cov):
                     pf["hist"]["VIOLATION:" + r["diffs"][0]["kind"]] += 1
                     d = r["diffs"][0]
                     viol.append(dict(what="%s cut to %d of %d bytes: %s -> %s (%s)" % (tag, r["cut"], pf["size"], unhex_id(d["id"]), d["kind"], d.get("got", "")[:80]),
-                                     failing_input=dict(kind="trunc", file=path, origin=origin, cut=r["cut"]),
+                                     failing_input=dict(kind="trunc", file=path, origin=pf["origin"], cut=r["cut"]),
                                      call=unhex_id(d["id"]), intact=d.get("intact"), observed=d.get("got"), diffs=r["diffs"][:4]))
                 elif r["open"] == "E":
                     pf["hist"]["open-error" if b["open"] == "ok" else "equal"] += 1
@@ -550,6 +550,136 @@ def write_sweep(ctx, lib, workdir, viol, cov, budget_total):
     return len(jobs)
 
 
+# ----------------------------------------------------------------------------- W: writer shape tie + source audit
+
+WRITE_FAMILY = r"(WriteAt|WriteAtAddress|WriteTo|WriteAtWithAllocation|Flush|Sync|Truncate|Close|UpdateEndOfFile)"
+
+
+def source_audit(viol, cov):
+    """the writer model has no dropped error (wstrict): every call of the write family in the non-test sources is either
+    checked or sits on a path that already returns an error.  Regenerated from the source on every run (DESIGN 4.4)."""
+    bad, allowed, nfiles = [], [], 0
+    for root, dirs, fs in os.walk(vlib.REPO):
+        rel = os.path.relpath(root, vlib.REPO)
+        if rel.split(os.sep)[0] in ("cmd", "examples", "tmp", "scripts", "docs", "testdata", ".git", "internal" + os.sep + "testing"):
+            continue
+        for f in fs:
+            if not f.endswith(".go") or f.endswith("_test.go"):
+                continue
+            nfiles += 1
+            path = os.path.join(root, f)
+            lines = open(path, errors="replace").read().split("\n")
+            for i, l in enumerate(lines):
+                st = l.strip()
+                if st.startswith("//"):
+                    continue
+                blank = re.search(r"_\s*(,\s*_)?\s*:?=\s*[A-Za-z_][A-Za-z0-9_.()]*\." + WRITE_FAMILY + r"\(", st)
+                bare = re.match(r"(defer\s+)?[A-Za-z_][A-Za-z0-9_.()]*\." + WRITE_FAMILY + r"\(", st)
+                if not (blank or bare):
+                    continue
+                where = "%s:%d" % (os.path.relpath(path, vlib.REPO), i + 1)
+                ctx_after = "\n".join(lines[i + 1:i + 4])
+                ctx_before = "\n".join(lines[max(0, i - 3):i])
+                ok = (re.search(r"return\s+(nil,\s*|0,\s*|\"\",\s*)*(err|fmt\.Errorf|errors\.New|utils\.WrapError)", ctx_after) is not None
+                      or "cleanupOnError" in ctx_before
+                      or re.search(r"(reader|r|w)\.Close\(\)", st) and ("filter" in f))   # in-memory zlib reader / writer
+                (allowed if ok else bad).append(where + "  " + st[:80])
+    for b in bad:
+        viol.append(dict(what="write/close error dropped at %s" % b, nofail=True,
+                         correspondence="Model.IOProgWriter (no WSwallow) vs the call site; theorem C17_write_fault_err assumes wstrict",
+                         case=dict(call_site=b)))
+    cov["source_audit"] = dict(files=nfiles, dropped_on_error_paths=allowed, dropped_elsewhere=bad)
+
+
+def whist_trace(H, case, target):
+    """the pwrite64 / fsync / ftruncate / close calls on the target file, grouped by API call (markers on stderr)"""
+    log = os.path.join(vlib.scratch(), "wt-%d.log" % next(_ctr))
+    env = dict(os.environ, C17_MARK="1")
+    subprocess.run(["strace", "-f", "-qq", "-xx", "-s", "48", "-o", log, "-e", "trace=pwrite64,write,fsync,ftruncate,close",
+                    H, "c17whist", target], input=json.dumps(case), capture_output=True, text=True, env=env, timeout=120)
+    groups, cur = [("create", [])], None
+    fdn = None
+    for l in open(log, errors="replace"):
+        m = re.search(r'pwrite64\((\d+), "((?:\\x[0-9a-f]{2})*)"(?:\.\.\.)?, (\d+), (\d+)\)\s+= (\d+)', l)
+        if m:
+            fdn = m.group(1)
+            sig = bytes.fromhex(m.group(2).replace("\\x", ""))[:4]
+            groups[-1][1].append((0, int(m.group(4)), int(m.group(3)), sig))
+            continue
+        m = re.search(r'write\(2, "((?:\\x[0-9a-f]{2})*)"', l)
+        if m:
+            t = bytes.fromhex(m.group(1).replace("\\x", "")).decode(errors="replace").strip()
+            if t.startswith("MARK"):
+                groups.append((t[5:], []))
+            continue
+        m = re.search(r'fsync\((\d+)\)', l)
+        if m and (fdn is None or m.group(1) == fdn):
+            groups[-1][1].append((1, 0, 0, b""))
+            continue
+        m = re.search(r'ftruncate\((\d+), (\d+)\)', l)
+        if m and (fdn is None or m.group(1) == fdn):
+            groups[-1][1].append((2, int(m.group(2)), 0, b""))
+            continue
+        m = re.search(r'close\((\d+)\)', l)
+        if m and fdn is not None and m.group(1) == fdn:
+            groups[-1][1].append((3, 0, 0, b""))
+    if os.path.exists(target):
+        os.remove(target)
+    return groups
+
+
+def writer_shape_tie(ctx, lib, workdir, viol, cov):
+    """the calls each API operation makes (strace) against the transcribed patterns of Model/IOProgWriter.v"""
+    if not os.path.exists(os.path.join(vlib.COQ, "theories", "Model", "IOProgWriter.v")):
+        cov["writer_shape"] = "Model/IOProgWriter.v not present"
+        return 0
+    H = ctx.harness
+    cases = {tag: c for tag, _, c in lib}
+    rows, skipped = [], collections.Counter()
+    for tag in [t for t in WRITE_HISTORIES if t in cases]:
+        case = {k: v for k, v in cases[tag].items() if k not in ("dir", "keep")}
+        base = subprocess.run([H, "c17whist", os.path.join(workdir, "ws-%s.h5" % tag)], input=json.dumps(case), capture_output=True, text=True, timeout=120)
+        okflags = [bool(x.get("ok")) for x in json.loads(base.stdout)["results"]] if base.returncode == 0 else []
+        groups = whist_trace(H, case, os.path.join(workdir, "ws-%s.h5" % tag))
+        chunked = set(o["path"] for o in case["ops"] if o["op"] == "mkds" and o.get("chunk"))
+        for name, calls in groups:
+            if name == "create":
+                code = 1 if case["sb"] == 0 else 0
+            elif name.startswith("final_close"):
+                code = 7
+            else:
+                m = re.match(r"op(\d+) (\S+)\s*(\S*)", name)
+                i, opn, path = int(m.group(1)), m.group(2), m.group(3)
+                if i < len(okflags) and not okflags[i]:
+                    skipped["refused:" + opn] += 1
+                    continue
+                code = {"mkgroup": 2, "mkds": 3, "hardlink": 3, "softlink": 3, "extlink": 3, "setattr": 6, "close": 7,
+                        "write": (5 if path in chunked else 4)}.get(opn)
+                if code is None:
+                    skipped[opn] += 1
+                    continue
+            rows.append((tag, name, code, calls))
+    if not rows:
+        cov["writer_shape"] = "no operation traced"
+        return 0
+    v = ["From HV Require Import Base.Prelude Base.Outcome Base.Bytes Model.IOProg Model.IOProgWriter.\n"]
+    v.append("Definition ops : list (N * list obs) := [%s].\n" % ";\n ".join(
+        "(%d, [%s])" % (code, "; ".join('(%d, unhex "%s", %d)' % (k, sig.hex(), n) for k, a, n, sig in calls)) for _, _, code, calls in rows))
+    v.append("Definition bad_ops := Eval vm_compute in mismatches shape_ok ops.\nPrint bad_ops.\n")
+    out = vlib.coq_eval("".join(v), "c17wshape")
+    bad = vlib.parse_nlist(out, "bad_ops")
+    for i in bad[:3]:
+        tag, name, code, calls = rows[i]
+        viol.append(dict(what="%s: the calls of `%s` do not match the transcribed pattern %d of Model/IOProgWriter.v: %s" % (
+                             tag, name, code, [(k, sig.decode("latin1"), n) for k, a, n, sig in calls][:12]),
+                         case=dict(history=cases[tag], op=name, calls=[(k, a, n, sig.hex()) for k, a, n, sig in calls]), nofail=True,
+                         correspondence="Model.IOProgWriter.op_patterns vs the write call sites; theorems C17_write_*"))
+    mix = collections.Counter("%d" % r[2] for r in rows)
+    cov["writer_shape"] = dict(operations=len(rows), by_pattern=dict(mix), skipped=dict(skipped), mismatches=len(bad),
+                               sample=[(r[0], r[1], [(k, sig.decode("latin1"), n) for k, a, n, sig in r[3]]) for r in rows[1:3]])
+    return len(rows)
+
+
 # ----------------------------------------------------------------------------- F: in-process fault injection
 
 def fault_sweep(ctx, files, viol, cov, maxk):
@@ -762,9 +892,11 @@ def run(ctx):
         timings["strace_read_s"] = round(time.time() - t, 1)
         t = time.time()
         nw = write_sweep(ctx, lib, workdir, viol, cov, budget_total=(500 if ctx.tier == "quick" else 6000))
+        nw += writer_shape_tie(ctx, lib, workdir, viol, cov)
         timings["strace_write_s"] = round(time.time() - t, 1)
     else:
         viol.append(dict(what="strace is not installed: the syscall-level fault injection cannot run", nofail=True, correspondence="tools/strace"))
+    source_audit(viol, cov)
     # P
     t = time.time()
     npar = parser_tie(ctx, lib, viol, cov, repaired, workdir, crafted)
